@@ -27,6 +27,8 @@ type cfgT struct {
 	Peer        string   `json:"peer"`   // answer | stall
 	Gated       bool     `json:"gated"`  // gate and transport-close events are logged
 	Ordered     bool     `json:"ordered"`
+	H           bool     `json:"h"`        // reneg: a Handshake caller is present
+	Rehs        bool     `json:"rehs"`     // reneg: the peer runs a second handshake after its HelloRequest
 	Deadline    int      `json:"deadline"` // ms, I/O deadline on the transport (absolute, from scenario start)
 	Slack       int      `json:"slack"`    // ms
 }
@@ -612,6 +614,8 @@ func init() {
 				}()
 				if sc.Mode == "post" {
 					out.Emit(runPost(sc))
+				} else if sc.Mode == "reneg" || sc.Mode == "reneg-stress" {
+					out.Emit(runReneg(sc))
 				} else {
 					out.Emit(runScenario(sc))
 				}
